@@ -97,6 +97,11 @@ def relay_replay_plan(ob):
     f = ob.finding
     if f is not None and ob.label.startswith('C01/handover/'):
         return 'relay', {'driver': 'handover', 'args': {}}, lambda o: o.get('handover_complete') is False
+    if f is not None and (ob.target or '') == 'copy_half abort' and ob.label.startswith('C16/relay/byte-counter-never'):
+        # the destination takes the first piece and goes away: the second piece is read from the source but cannot be delivered
+        cases = [{'driver': 'copy_half', 'args': {'source': '68656c6c6f776f726c6421', 'pieces': [5, 6], 'buffer_size': 16, 'counted_before': 0, 'dst_closes_after': 5}},
+                 {'driver': 'copy_half', 'args': {'source': '6162636465', 'pieces': [1, 4], 'buffer_size': 8, 'counted_before': 0, 'dst_closes_after': 1}}]
+        return 'relay', cases, lambda o: o.get('counted') is not None and o.get('counted') > len(o.get('delivered', '')) // 2
     if f is not None and (ob.target or '') == 'copy_half abort' and ob.label.startswith('C04/relay/'):
         return 'relay', {'driver': 'copy_half_reset', 'args': {}}, lambda o: o.get('ok') is True and o.get('source_was_reset') is True
     if f is None or (ob.target or '') != 'copy_half':
@@ -249,6 +254,10 @@ def check_copy_half_abort(ck):
             continue
         n += 1
         ok, _ = _ok_payload(res)
+        dst = o.mem[m['dst_cell']]
+        counted = o.mem[m['stat_cell']].fields[m['stf'].index('read_bytes')].fields[0].t
+        # whatever goes wrong, the counter of this direction never runs ahead of what was handed to the destination
+        ex.prove(o, 'C16/relay/byte-counter-never-counts-bytes-the-destination-was-not-given', z3.ULE(counted - m['count0'], dst.out.len))
         ex.prove(o, 'C04/relay/a-failed-read-or-write-ends-the-direction-with-an-error', z3.Not(ok))
         if errs[0][1] == 'read':
             evs = [e[0] for e in o.trace]
